@@ -114,10 +114,12 @@ PROPS = {
             dict(run="pkg/backend/tso.VerifC02TSO", quick=dict(preempt=2, dealers=2), thorough=dict(preempt=3, dealers=2), covers=["done"], no_native=False),
             dict(run=B + "VerifC02Header", quick=dict(ops=1, keys=1, val9=0), thorough=dict(ops=2, keys=2, val9=0), covers=["get-kv", "list-sees-unreported-write", "done"]),
             dict(run=B + "VerifC01Race", name="C02_Race", quick=dict(ops=1, keys=1, val9=0, preempt=1), thorough=dict(ops=1, keys=2, val9=0, preempt=1), covers=["both-succeed", "done"]),
+            dict(run="pkg/zzc15.VerifC15Gate", name="C02_gate", quick=dict(preempt=2), thorough=dict(preempt=3), covers=["client-served-by-new-leader", "client-turned-away", "done"], no_native=True),
         ],
-        bounds=dict(quick="revision generator: 2 concurrent Deal + 1 Commit, all interleavings of its atomic operations with <= 2 preemptions, symbolic start value; header >= data on Get/List/limited List issued while a stored write is not yet reported readable (1-write history, read revision symbolic); uniqueness / real-time order / per-key monotonicity on the 2-client harness of C01",
+        assumptions=["C02_gate (a write arriving during a leader change) is decided over the model of client-go's elector and is not replayed natively"],
+        bounds=dict(quick="revision generator: 2 concurrent Deal + 1 Commit, all interleavings of its atomic operations with <= 2 preemptions, symbolic start value; header >= data on Get/List/limited List issued while a stored write is not yet reported readable (1-write history, read revision symbolic); uniqueness / real-time order / per-key monotonicity on the 2-client harness of C01; a write arriving at any moment of a leader change (<= 2 delays) is stamped above every revision the old leader stored",
                     thorough="3 scheduling deviations on the generator; 2-write histories over 2 keys for the header clause; the two concurrent clients over 2 keys (1 deviation)"),
-        outside="more than 2 concurrent dealers; Commit(r) with r above the dealt counter racing Deal (only at leader start)",
+        outside="more than 2 concurrent dealers; Commit(r) with r above the dealt counter racing Deal other than through the leader-change harness",
     ),
     "C04": dict(
         harnesses=[
@@ -185,9 +187,11 @@ PROPS = {
             dict(run="pkg/server/service/revision.VerifC18Sync", covers=["adopted", "refused"]),
             dict(run="pkg/server.VerifC18Status", covers=["adopted", "refused"]),
             dict(run="pkg/server/service/revision.VerifC18Concurrent", quick=dict(preempt=2), thorough=dict(preempt=3), covers=["done"], stress=5),
+            dict(run="pkg/zzc15.VerifC15Gate", name="C18_gate", quick=dict(preempt=2), thorough=dict(preempt=3), covers=["client-served-by-new-leader", "client-turned-away", "done"], no_native=True),
         ],
-        bounds=dict(quick="every handler of both APIs (etcd Txn x3 shapes, Range get/list/count/partitions, Watch; native Create/Update/Delete/Compact/Get/Range/Count/ListPartition/RangeStream/Watch) x {leader, follower} x {proxy on, off} x {leader reachable, unreachable}, with symbolic revisions (zero, old, far future, negative through the etcd API), limits, values and optional range ends in every request; watch start revision symbolic (a negative one is a streamed range read and must sync like any read); the real revision syncer against a leader that answers with a symbolic revision / an error status / not at all / with its answer cut after the headers; the real syncer against the real /status handler of a node that is / is not leader (response writer with net/http's status contract); 2 concurrent follower reads sharing the real single-flight fetch while the leader commits a write (<= 2 scheduling delays)",
+        bounds=dict(quick="every handler of both APIs (etcd Txn x3 shapes, Range get/list/count/partitions, Watch; native Create/Update/Delete/Compact/Get/Range/Count/ListPartition/RangeStream/Watch) x {leader, follower} x {proxy on, off} x {leader reachable, unreachable}, with symbolic revisions (zero, old, far future, negative through the etcd API), limits, values and optional range ends in every request; watch start revision symbolic (a negative one is a streamed range read and must sync like any read); the real revision syncer against a leader that answers with a symbolic revision / an error status / not at all / with its answer cut after the headers; the real syncer against the real /status handler of a node that is / is not leader (response writer with net/http's status contract); 2 concurrent follower reads sharing the real single-flight fetch while the leader commits a write (<= 2 scheduling delays); a node in the middle of its take-over: whenever it says it is leader the revision it publishes covers everything stored (<= 2 delays)",
                     thorough="3 scheduling delays for the concurrent reads; the handler enumeration is complete in both tiers"),
+        assumptions=["C18_gate (the /status revision and a write served during a leader change) is decided over the model of client-go's elector and is not replayed natively"],
         outside="TLS / schema retry of the syncer (http only); the etcd proxy client; more than 2 concurrent follower reads",
     ),
     "C14": dict(
